@@ -302,7 +302,7 @@ class Judge:
             r = np.concatenate([ref.real, ref.imag], axis=-1)
         else:
             a, r = arr, ref
-        ok, worst, i = fl.match_multiset(a, r, TOL)
+        ok, worst, i = fh.match_multiset_fast(a, r, TOL, fl.match_multiset)
         if not ok:
             return ("images", "multiset-mismatch",
                     "returned matrix %r is the image of no remaining accepting path"
@@ -412,7 +412,10 @@ def setup(run):
         if not J.readable():
             return acc.skip("an edge label is not a word in / a name of the generators")
         s_path = M.starts[0] if mode != "start" else st
-        if fl.count_paths(M, length, s_path, PATH_CAP) > PATH_CAP:
+        # judged cap: PATH_CAP for ambient calls; the large-enumeration workload
+        # raises it for its own calls (cost of the reference ~ 10 us per path)
+        cap = int(_ctx.get("cap", PATH_CAP))
+        if fl.count_paths(M, length, s_path, cap) > cap:
             return acc.skip("more accepting paths than the judged cap")
         pc = b.get("precomputed")
         memo_kind = "none" if pc is None else ("fresh" if not before else "reused")
@@ -1194,6 +1197,142 @@ def wl_loose_inverses(run, rng, idx):
         _ctx.update(route="ambient", rep="ambient")
 
 
+# ---------------------------------------------------------------------------
+# large enumerations
+
+SIZE_TARGETS = (300, 600, 1200, 2400, 4500)      # just above 256 / 512 / 1024 / 2048 / 4096
+LARGE_SOURCES = ("free:ab", "f2.wa", "dense", "cone_torus.wa", "multiple", "free:abc",
+                 "genus2_surface.wa", "cox334.wa", "pentagon_ra.wa", "cox237.geowa", "dense2")
+
+
+def large_automaton(run, rng, source):
+    """-> (library FSA, model) of an automaton with exponential growth."""
+    fsa = fsa_build.fsamod()
+    if source.startswith("free:"):
+        F = fsa.free_automaton(list(source[5:]))
+    elif source in ("dense", "dense2", "multiple"):
+        # random automaton, every state with 3-4 outgoing edges (count ~ k^L)
+        n = int(rng.integers(2, 6))
+        labels = ["a", "b", "A", "B"][:int(rng.integers(3, 5))] if source != "multiple" else ["a", "b", "A"]
+        names = list(range(n))
+        d = {v: {l: names[int(rng.integers(0, n))] for l in labels} for v in names}
+        F = fsa_build.build(fsa_build.ROUTES[int(rng.integers(0, NR))], d, 0, rng)
+        if source == "multiple":
+            F = lib(run, "accepted-set", "automaton_multiple", lambda: F.automaton_multiple(2))
+    else:
+        F = fsa.load_builtin(source)
+    M, _prob = fl.snapshot(F)
+    return F, M
+
+
+def wl_large(run, rng, idx):
+    """LARGE enumerations: automata with exponential growth (free automata,
+    built-in word-acceptor files, dense random automata, automaton_multiple
+    output) at the first length where the stack of matrices multiplied at the
+    top of the recursion (the sub-result of a neighbour of the start state)
+    reaches a size target just above 256 / 512 / 1024 / 2048 / 4096 -- the
+    sizes at which vectorised fast paths switch on -- in every mode (default,
+    start_state, end_state), both maxlen, with and without words, edge labels
+    as words and as names, with and without a memo, and through
+    freely_reduced_elements.  Every returned matrix is judged by the
+    postcondition monitors (the judged cap is raised for these calls).
+    (seeded change C06-r6-3: stacks of >= 256 matrices are left-multiplied as
+    one product with np.hstack and reshaped with the wrong layout; smaller
+    enumerations are untouched.)"""
+    agree = run.monitor("agreement")
+    quick = run.tier == "quick"
+    source = LARGE_SOURCES[idx % len(LARGE_SOURCES)]
+    targets = SIZE_TARGETS[:3] if quick else SIZE_TARGETS
+    target = targets[idx % len(targets)]
+    total_cap = 6500 if quick else 48000
+    kind = REP_KINDS[(idx + idx // len(REP_KINDS)) % len(REP_KINDS)]
+    _ctx.update(route="large-" + source, rep=kind)
+    run.current_case = {"route": "large", "automaton": source, "rep": kind, "size_target": target}
+    try:
+        F, M = large_automaton(run, rng, source)
+        if M is None or len(M.starts) != 1 or not M.delta:
+            return run.monitor("accepted-set").skip("automaton is not in the domain")
+        start = M.starts[0]
+        TC = fh.Transfer(M)
+        nbrs = sorted({w for (u, _l), w in M.delta.items() if u == start}, key=repr)
+        # first length whose top-level stacks reach the target, within the cap
+        L = 1
+        while L < 14 and max(TC.count(L - 1, w) for w in nbrs) < target \
+                and TC.count(L + 1, start) <= total_cap:
+            L += 1
+        labels = sorted({l for (_v, l) in M.delta})
+        single = all(len(l) == 1 for l in labels)
+        names = lower_names(labels)
+        if len(names) > 4 and kind not in ("float2", "int2"):
+            kind = "float2" if kind.startswith(("float", "proj")) else "int2"
+        rep, _exact = make_rep(rng, kind, names)
+        run.current_case.update(length=L, accepted=TC.count(L, start),
+                                generators={g: np.asarray(v) for g, v in rep.generators.items()})
+        # heavy states: most words from it (start mode) / most words into it (end mode)
+        vs = sorted(M.vertices, key=repr)
+        ok_start = [v for v in vs if TC.count(L, v) <= total_cap]
+        s_heavy = max(ok_start, key=lambda v: TC.count(L, v)) if ok_start else start
+        e_heavy = max(vs, key=lambda v: TC.count(L, start, end=v))
+        ews = ((True, False) if single else (True,))
+        if quick:
+            ews = ews[idx % len(ews):][:1]
+        _ctx["cap"] = total_cap
+        v0 = nviol(run)
+        ncall = 0
+        for ew in ews:
+            for maxlen in (True, False):
+                for m, st in (("default", None), ("start", s_heavy), ("end", e_heavy)):
+                    kw = {"maxlen": maxlen, "edge_words": ew}
+                    if m == "start":
+                        kw["start_state"] = st
+                    elif m == "end":
+                        kw["end_state"] = st
+                    memo_d = {} if ncall % 2 == 0 else None
+                    ncall += 1
+                    if memo_d is not None:
+                        kw["precomputed"] = memo_d
+                    got = {}
+                    for ww in (True, False):
+                        res = lib(run, "accepted-set", "automaton_accepted",
+                                  lambda: rep.automaton_accepted(F, L, with_words=ww, **kw))
+                        if nviol(run) != v0:
+                            raise Stop()
+                        arr = raw_matrices(res[0] if ww else res)
+                        got[ww] = arr
+                        s_from = start if m != "start" else st
+                        want_n = TC.count(L, s_from, exact=not maxlen, end=st if m == "end" else None)
+                        agree.require(arr is not None and arr.ndim == 3 and arr.shape[0] == want_n,
+                                      "agreement/vs-path-count/mode:%s/maxlen:%s" % (m, maxlen),
+                                      "automaton_accepted(length=%d) returned %r matrices; the automaton has "
+                                      "%d accepting paths (transfer-matrix count)"
+                                      % (L, None if arr is None else arr.shape[0], want_n))
+                        if nviol(run) != v0:
+                            raise Stop()
+                        run.note_class("large", source, kind, L, target, m, maxlen, ww, ew,
+                                       memo_d is not None)
+                        # the memo must not be shared between with_words settings
+                        kw.pop("precomputed", None)
+                    a, bm = got[True], got[False]
+                    ok = a.shape == bm.shape and fh.match_multiset_fast(
+                        np.asarray(a, dtype=float), np.asarray(bm, dtype=float), TOL, fl.match_multiset)[0]
+                    agree.require(ok, "agreement/with_words-false-vs-true/mode:%s/maxlen:%s" % (m, maxlen),
+                                  "with_words=False returns different matrices from with_words=True")
+                    if nviol(run) != v0:
+                        raise Stop()
+        # the same size through freely_reduced_elements (free automata only)
+        if source.startswith("free:ab"):
+            for ww in (True, False):
+                lib(run, "free-reduced", "freely_reduced_elements",
+                    lambda: rep.freely_reduced_elements(L, with_words=ww))
+                if nviol(run) != v0:
+                    raise Stop()
+    except Stop:
+        pass
+    finally:
+        _ctx.pop("cap", None)
+        _ctx.update(route="ambient", rep="ambient")
+
+
 def wl_names(run, rng, idx):
     """multi-character generator names: labels are names (edge_words=False);
     with parse_simple=False also words 's1*t1' (edge_words=True); and names
@@ -1533,6 +1672,7 @@ WORKLOADS = [
     Workload("generator-names", wl_names, quick=12, thorough=400),
     Workload("word-labels", wl_wordlabels, quick=12, thorough=480),
     Workload("loose-inverses", wl_loose_inverses, quick=16, thorough=480),
+    Workload("large", wl_large, quick=4, thorough=66),
     Workload("builtin", wl_builtin, quick=20, thorough=100),
     Workload("free-group", wl_free, quick=9, thorough=120),
     Workload("free-group-names", wl_free_names, quick=2, thorough=8),
